@@ -1,4 +1,12 @@
-"""Executor for the Components layer (C16): real zope.interface.registry.Components with captured events."""
+"""Executor for the Components layer (C16): real zope.interface.registry.Components with captured events.
+
+`persist` makes the history's object a picklable Components (a subclass whose two registries are picklable adapter
+registries, the way zope.component.persistentregistry and the library's own tests build one); `reload` replaces it by its
+pickle round trip (the volatile utility counter cache and the lookup objects do not survive and are rebuilt from what was
+pickled); `reinit` runs `__init__` again on the live object."""
+import pickle
+import sys
+import types
 
 
 class V:
@@ -23,10 +31,53 @@ class U(V):
     __hash__ = None
 
 
+def _picklable_classes():
+    """module-level (importable, hence picklable) subclasses; defined late because zope.interface must come from the overlay"""
+    g = globals()
+    if "PicklableComponents" in g:
+        return g["PicklableComponents"]
+    from zope.interface.adapter import VerifyingAdapterRegistry
+    from zope.interface.registry import Components
+
+    class PicklableAdapterRegistry(VerifyingAdapterRegistry):
+        # the registry data is state; the lookup object and its caches are volatile
+
+        def __getstate__(self):
+            state = self.__dict__.copy()
+            for k in list(state):
+                if k in self._delegated or k.startswith('_v'):
+                    state.pop(k)
+            state.pop('ro', None)
+            return state
+
+        def __setstate__(self, state):
+            bases = state.pop('__bases__', ())
+            self.__dict__.update(state)
+            self._createLookup()
+            self.__bases__ = bases
+            self._v_lookup.changed(self)
+
+    class PicklableComponents(Components):
+
+        def _init_registries(self):
+            self.adapters = PicklableAdapterRegistry()
+            self.utilities = PicklableAdapterRegistry()
+
+    for cls in (PicklableAdapterRegistry, PicklableComponents):
+        cls.__qualname__ = cls.__name__
+        g[cls.__name__] = cls
+    return PicklableComponents
+
+
 def run(lines, out, args):
     from zope.interface import Interface
     from zope.interface.interface import InterfaceClass
     from zope.interface import registry as R
+    # generated interfaces and classes are pickled by reference: they live in an importable synthetic module
+    for mname in ("zi", "zi.gen"):
+        if mname not in sys.modules:
+            sys.modules[mname] = types.ModuleType(mname)
+    sys.modules["zi"].gen = gen = sys.modules["zi.gen"]
     events = []
     R.notify = lambda e: events.append(("R:" if type(e).__name__ == "Registered" else "U:") + type(e.object).__name__.replace("Registration", ""))
     st = dict(ifs={}, c=None, vals={}, serial=0)
@@ -64,7 +115,11 @@ def run(lines, out, args):
                 ifs[3] = InterfaceClass("R1_%d" % t, __module__="zi.gen")
                 ifs[4] = InterfaceClass("R2_%d" % t, (ifs[3],), __module__="zi.gen")
                 from zope.interface import classImplements, implementedBy
-                st["K"] = type("K%d" % t, (object,), {})
+                st["K"] = type("K%d" % t, (object,), {"__module__": "zi.gen"})
+                for k in [k for k in vars(gen) if not k.startswith("__")]:
+                    delattr(gen, k)
+                for x in (ifs[1], ifs[2], ifs[3], ifs[4], st["K"]):
+                    setattr(gen, x.__name__, x)
                 classImplements(st["K"], ifs[3])
                 ifs[5] = implementedBy(st["K"])
                 ifs[6] = implementedBy(object)
@@ -109,6 +164,26 @@ def run(lines, out, args):
                 got = "%s [%s]" % (ret, " ".join(events))
             elif op == "reinit":
                 c.__init__(c.__name__, c.__bases__)
+            elif op == "persist":
+                if list(c.registeredUtilities()) or list(c.registeredAdapters()) or list(c.registeredSubscriptionAdapters()) or list(c.registeredHandlers()):
+                    raise ValueError("persist: only directly after reset")
+                st["c"] = _picklable_classes()()
+            elif op == "reload":
+                del events[:]
+                c2 = pickle.loads(pickle.dumps(c, pickle.HIGHEST_PROTOCOL))
+                assert c2 is not c and c2._v_utility_registrations_cache is None
+                st["c"] = c2
+                # the identities the script speaks of are now those of the re-loaded components (one object per identity:
+                # pickling keeps sharing between and within the four registration tables and the two registries)
+                new = {}
+                for reg in (list(c2.registeredUtilities()) + list(c2.registeredAdapters()) + list(c2.registeredSubscriptionAdapters())
+                            + list(c2.registeredHandlers())):
+                    x = reg.component if hasattr(reg, "component") else reg.factory
+                    if x.i and new.setdefault(x.i, x) is not x:
+                        got = "sharing-lost %d" % x.i
+                st["vals"].update(new)
+                if events:
+                    got = "events %s" % " ".join(events)
             elif op == "listU":
                 got = " ".join("%s/%s=%d/%s" % (inv(r.provided), r.name, r.component.i, r.info) for r in c.registeredUtilities())
             elif op == "listA":
